@@ -101,7 +101,8 @@ func cbCanon(r *CbRun) string {
 			target = r.Rec.Acs
 		}
 	}
-	if d.Kind == "post" && r.Rec != nil && target == htmlURLNormalize(r.Rec.Acs) {
+	if d.Kind == "post" && r.Rec != nil && (target == htmlURLNormalize(r.Rec.Acs) || (target == "#ZgotmplZ" && tmplURLFiltered(r.Rec.Acs))) {
+		// html/template replaces a consumer URL whose scheme is not http(s)/mailto by its fail-safe value (C17)
 		target = r.Rec.Acs
 	}
 	sig := "none"
@@ -178,7 +179,7 @@ func cbCompare(c *Ctx, r *CbRun) {
 	} else {
 		toks = append(toks, "-")
 	}
-	toks = append(toks, tokBool(cs["sigalg"] != "invalid"))
+	toks = append(toks, tokBool(cs["sigalg"] != "invalid" && cs["respkey"] != "mismatch")) // signing fails for an unknown algorithm and for a key that does not belong to the certificate
 	line := strings.Join(toks, " ")
 	got := c.drv.Ask(line)
 	want := cbCanon(r)
